@@ -238,3 +238,8 @@ impl DifficultyValues {
             .collect()
     }
 }
+
+// Verification hook (compiled only by `cargo kani`, which sets `--cfg kani`).
+#[cfg(kani)]
+#[path = "/verif/harness/osu_diff.rs"]
+pub(crate) mod verif_harness;
